@@ -1,7 +1,7 @@
 (* C14 - mixed propagation outputs are mixtures of interval images of input alpha-cuts.
    grid = the probability grid of the p-boxes; hypotheses on it (length, strictly increasing, inside (0,1]) hold for Params. *)
 From Coq Require Import Reals List Arith.
-From PUN Require Import Base.Num Model.Interval Model.Pbox Model.B2B Model.Mixed Proofs.ListR Proofs.PboxWF Proofs.Query Proofs.Hier Proofs.Mixed.
+From PUN Require Import Base.Num Model.Interval Model.Pbox Model.B2B Model.Mixed Proofs.ListR Proofs.PboxWF Proofs.Query Proofs.Hier Proofs.Iso Proofs.Mixed.
 Import ListNotations.
 Open Scope R_scope.
 
@@ -40,6 +40,13 @@ Theorem C14_precise (focal : list (R * R)) : (1 < length focal)%nat -> Forall (f
 Proof. exact (mixture_precise steps plo phi grid_len grid_ok grid_sorted focal). Qed.
 Theorem C14_cut_precise (q : list R) (a : R) : fst (alpha_cut RN steps plo phi (q, q) a) = snd (alpha_cut RN steps plo phi (q, q) a).
 Proof. exact (cut_precise steps plo phi q a). Qed.
+(* inputs that are all precise distributions, `direct` strategy, any response function whose powers have positive exponents:
+   every alpha-cut box is a box of points, its image is a point, the output has zero width *)
+Theorem C14_all_precise (fexp : R -> R) (fpow : R -> nat -> R) e (qs : list (list R)) (levels : list (list R)) focal :
+  (forall x k, fpow x k = x ^ k) -> Iso.pos_pows e -> (1 < length levels)%nat ->
+  focal_elements RN steps plo phi (direct RN fexp fpow e) (map (fun q => (q, q)) qs) levels = Ok focal ->
+  exists p, mixture RN steps plo phi focal = Ok p /\ fst p = snd p.
+Proof. intros Hf. exact (mixed_all_precise steps plo phi grid_len grid_ok grid_sorted fexp fpow Hf e qs levels focal). Qed.
 End C14.
 Print Assumptions C14_support.
 (* slicing with k slices of d inputs: k^d rows, no row twice, every combination of grid levels present *)
